@@ -20,6 +20,7 @@ abbrev Val := Nat
 abbrev Env := Nat → Option Val
 
 structure Graph where
+  size : Nat                      -- SCC ids are 0 … size-1
   deps : Nat → List Nat           -- SCC id ↦ ids of the SCCs it depends on
 
 inductive Event
@@ -45,7 +46,7 @@ def setAll (e : Env) : List (Nat × Val) → Env
 
 /-- an SCC may be processed: all its dependencies have a value, it has not been started -/
 def ready (g : Graph) (st : St) (s : Nat) : Bool :=
-  (g.deps s).all (fun d => (st.res d).isSome) && !(st.started.contains s)
+  decide (s < g.size) && (g.deps s).all (fun d => (st.res d).isSome) && !(st.started.contains s)
 
 variable (g : Graph) (F : Nat → Env → Val)
 
